@@ -6,6 +6,7 @@ import Req.Client.Progress
 import Req.Client.EarlyResponse
 import Req.Client.UploadReader
 import Req.Client.ProgressClock
+import Req.Client.SetBody
 /-! Driver lanes of C17. -/
 namespace Req.Driver.L.C17
 open Req.Proto
@@ -361,7 +362,26 @@ def laneProgFiles : List String → String
     | _, _, _ => "bad-op"
   | _ => "bad-op"
 
+/-- `c17setbody <class> <bytes>` → the slot `Request.SetBody` fills: `unchanged`, `stream`,
+`raw <hex>`, `provider`, `marshal`. -/
+def laneSetBody : List String → String
+  | [cls, b] =>
+    match decodeHex b with
+    | none => "bad-op"
+    | some b =>
+      let arg : Option Req.SetBody.Arg := match cls with
+        | "nil" => some .untypedNil | "readcloser" => some .readCloser | "reader" => some .reader
+        | "bytes" => some (.bytes b) | "string" => some (.str b) | "func" => some .bodyFunc
+        | "composite" => some .composite | "scalar" => some (.scalar b) | _ => none
+      match arg with
+      | none => "bad-op"
+      | some a => match Req.SetBody.setBody a with
+        | .unchanged => "unchanged" | .stream => "stream" | .raw x => "raw " ++ encodeHex x
+        | .provider => "provider" | .marshal => "marshal"
+  | _ => "bad-op"
+
 def lanes : List (String × (List String → String)) := [
+  ("c17setbody", laneSetBody),
   ("c17progwt", laneProgWT),
   ("c17progrt", laneProgRT),
   ("c17progrc", laneProgRC),
